@@ -9,6 +9,7 @@ mkdir -p $D; cp $WT/out/* $D/ 2>/dev/null
 cd $WT; git checkout -q -- . ; git status --short | grep -v '^??' && { echo "worktree dirty"; exit 2; }
 echo "== demo, clean tree"; sh out/build.sh > /tmp/demo-clean.log 2>&1; echo "exit $?"; tail -2 /tmp/demo-clean.log
 git apply out/patch.diff || { echo "patch does not apply"; exit 2; }
+if git diff --name-only | grep -q '^src/'; then echo "(library sources changed: rebuilding cds-s)"; ninja -C _b -j16 cds-s > /tmp/ninja-lib.log 2>&1 || tail -3 /tmp/ninja-lib.log; LIBCHANGED=1; fi
 echo "== demo, patched"; sh out/build.sh > /tmp/demo-patched.log 2>&1; echo "exit $?"; tail -2 /tmp/demo-patched.log
 while [ $# -ge 2 ]; do
   T=$1; F=$2; shift 2
@@ -17,4 +18,5 @@ while [ $# -ge 2 ]; do
 done
 echo "== ./check $PROP quick, patched"; ( cd /verif && VERIF_REPO=$WT ./check $PROP quick 2>&1 | grep -E "VIOLATION|KNOWN|quick:" | head -8; echo "exit ${PIPESTATUS[0]}" )
 git checkout -q -- .
+if [ -n "${LIBCHANGED:-}" ]; then ninja -C _b -j16 cds-s > /tmp/ninja-lib.log 2>&1; fi
 echo "== ./check $PROP quick, clean"; ( cd /verif && VERIF_REPO=$WT ./check $PROP quick 2>&1 | grep -E "VIOLATION|KNOWN|quick:" | head -8; echo "exit ${PIPESTATUS[0]}" )
